@@ -358,11 +358,28 @@ class LoopSpec:
         # `hyp_inv` the conjunction of the instances the proof needs (FORALL-elimination); defaults to inv
         self.hyp_inv = hyp_inv or inv
 
+    def frame_condition(self, I, s, f):
+        """the locals the loop statement assigns must be the ones the sidecar havocs: a local that is live before the loop and assigned
+        in it without being listed would keep its stale value on the exit path (unsound), so that is outside the subset; one that is
+        only born in the loop is poisoned on the exit path (any later use is outside the subset as well)"""
+        assigned = set()
+        for node in [s.target] + list(s.body):
+            for x in ast.walk(node):
+                if isinstance(x, ast.Name) and isinstance(x.ctx, ast.Store):
+                    assigned.add(x.id)
+        born = []
+        for v in sorted(assigned - set(self.modifies)):
+            if v in f.locals:
+                raise Unsupported("the loop assigns the local '%s', which the sidecar's frame condition (modifies) does not list" % v)
+            born.append(v)
+        return born
+
     def run(self, I, s, f, emit_init=True):
         it = I.eval(s.iter, f)
         n = self.length(I, f, it)
         if emit_init:
             I.ex.oblige(self.name + ".init", self.inv(I, f, z3.IntVal(0)))
+        born = self.frame_condition(I, s, f)
         for v, sort in self.modifies.items():
             f.locals[v] = sort(I) if callable(sort) else I.ex.fresh(sort, "havoc_" + v)
         if I.ex.choose(2) == 0:
@@ -380,6 +397,8 @@ class LoopSpec:
             raise PathAbort()
         I.ex.assume(n >= 0)
         I.ex.assume(self.hyp_inv(I, f, n))
+        for v in born:
+            f.locals[v] = Opaque("local '%s' born in a loop verified by invariant" % v)
         if s.orelse:
             I.exec_block(s.orelse, f)
 
@@ -781,6 +800,12 @@ class Interp:
         raise Unsupported("iteration over %r (symbolic trip count needs an invariant)" % (it,))
 
     def loop_with_invariant(self, s, f, spec: LoopSpec):
+        want = getattr(spec, "statement", ast.For)
+        if not isinstance(s, want):
+            # the sidecar's invariant is stated over a `for` loop (trip count, item of iteration k); the source has another loop form
+            # here: the contract does not apply to this text (undecided), it is neither a crash nor a violation
+            raise Unsupported("loop %s of %s is a %s statement; the sidecar's invariant is stated over a %s loop" % (
+                self.loop_ordinal(f, s), f.fname, type(s).__name__.lower(), want.__name__.lower()))
         return spec.run(self, s, f)
 
     def st_Break(self, s, f):
